@@ -1250,7 +1250,9 @@ mod convert {
                 return Err(ConvertError::MissingCompilationName);
             };
 
-            if from_header.line_base() > 0 {
+            if from_header.line_base() > 0
+                || i16::from(from_header.line_base()) + i16::from(from_header.line_range()) <= 0
+            {
                 return Err(ConvertError::InvalidLineBase);
             }
             let mut program = LineProgram::new(
